@@ -349,6 +349,10 @@ def run(prog: Program, res: Result, tier: str) -> None:
                          "array sizes and loop extents are non-negative integers"]
     if nloops < 12:
         raise AnalysisError(f"only {nloops} prange loops found in parallel kernels; 12 were confirmed by hand")
+    from ..report import depends as _depends
+    _depends(res, "O4", prog, tier, "C14", accept=lambda o: (o.key or "").endswith(":division"),
+             why="a parallel kernel equals its own Python definition only if the compiler may not re-associate it: C14's no-fastmath obligations for the decimators "
+                 "(serial and parallel twins) are re-evaluated here")
     res.floor("O2", 12)
     res.floor("O5", 8)
 
